@@ -24,6 +24,7 @@ func (g *gen) writeStatement(b *buffer, n *a.Node, depth uint32) error {
 		return fmt.Errorf("body recursion depth too large")
 	}
 	depth++
+	defer g.verifStatement(n)()
 
 	if n.Kind() == a.KAssert {
 		// Assertions only apply at compile-time.
@@ -124,6 +125,9 @@ func (g *gen) writeStatementAssign(b *buffer, op t.ID, lhs *a.Expr, rhs *a.Expr,
 }
 
 func (g *gen) writeStatementAssign1(b *buffer, op t.ID, lhs *a.Expr, rhs *a.Expr, skipRHS bool) error {
+	if done, err := g.verifWriteAssignOp(b, op, lhs, rhs, skipRHS); done {
+		return err
+	}
 	lhsBuf := buffer(nil)
 	opName, closer, disableWconversion := "", "", false
 
